@@ -247,11 +247,16 @@ def run(ctx):
     for c in cases:
         by_kind.setdefault(c[0], []).append(c)
     for kind, cs in by_kind.items():
-        mo = ctx.model_outputs(IMPORTS, [c[4] for c in cs], 'fun c => ' + cs[0][5], shard=120)
+        mo = ctx.model_outputs(IMPORTS, [c[4] for c in cs], 'fun c => ' + cs[0][5], shard=20)
         for (kind, cfg, x, extra, _, _), exp in zip(cs, mo):
             st, got = impl_variant(kind, cfg, x, extra)
             inp = dict(kind='toy-' + kind, cfg=cfg, signal=x, extra=extra)
             if st in ('timeout', 'nonint') or exp == [-6]:
+                ctx.discarded += 1
+                continue
+            if exp == [-1] and st == 'ok' and got.count(-99999) >= 55:
+                # the model's outer loop has fuel for 60 layers and reports exhaustion as "no result"; the outer loop has no
+                # termination guarantee and such runs are not compared
                 ctx.discarded += 1
                 continue
             if st == 'converge':
